@@ -5,9 +5,14 @@
 
 static const char *MATGENS[] = { "rand", "rand", "rank", "sparse", "zero", "id", "one" };
 
-static int g_deep, g_strat = -1;
+static int g_deep, g_strat = -1, g_sliver, g_sliver_n;
 int gen_dim(rng_t *r, int maxd) {
   if (maxd < 1) maxd = 1;
+  if (g_sliver) { /* tiny, huge, tiny, ... : (tiny x huge), (huge x tiny) products, flat eliminations, thin triangular solves */
+    int huge = (g_sliver_n++ & 1) == (g_sliver - 1);
+    if (huge) return 20000 + (int)rng_below(r, 6000);
+    return 1 + (int)rng_below(r, 4);
+  }
   if (g_deep && maxd >= 200 && rng_below(r, 4) != 0) return 257 + (int)rng_below(r, 330); /* beyond the 256 of the smallest __M4RI_MUL_BLOCKSIZE */
   int d;
   switch (rng_below(r, 10)) {
@@ -95,8 +100,18 @@ int gen_nops(void) { int n = 0; while (gen_all_ops[n]) n++; return n; }
 static int gen_case_inner(rng_t *r, const char *op, const genopt_t *g, sbuf_t *o, int rb, int pb);
 int gen_case(rng_t *r, const char *op, const genopt_t *g, sbuf_t *o, int rb, int pb) {
   g_deep = g->deep; g_strat = g->strat1 - 1; g_winprob = g->winprob;
-  int rc = gen_case_inner(r, op, g, o, rb, pb);
-  g_deep = 0; g_strat = -1;
+  /* flat shapes only where the cost stays small: no kernel (n x n result), no inversion / triangular inverse (square), no DJB, no string constructor */
+  static const char *flat_ok[] = { "mul_naive", "addmul_naive", "mul_va", "mul_m4rm", "addmul_m4rm", "mul", "addmul", "ech_m4ri", "ech_pluq", "ech", "top_ech", "ple", "pluq", "ple_russian",
+    "pluq_russian", "trsm_ul", "trsm_ll", "trsm_ur", "trsm_lr", "solve", "pluq_solve", "transpose", "copy", "submatrix", "concat", "stack", "extract_u", "extract_l", "set_ui", "cmp", "ap_left",
+    "ap_left_trans", "ap_right", "ap_right_trans", "ap_capped", "col_swap", "row_swap", "gauss", "density", "find_pivot", "hash", "info", "m4rm_step", "window_cycle", NULL };
+  g_sliver = 0; g_sliver_n = 0;
+  if (g->sliver) for (int i = 0; flat_ok[i]; i++) if (!strcmp(op, flat_ok[i])) g_sliver = g->sliver;
+  if (g_sliver == 1 && (strstr(op, "mul") || !strncmp(op, "trsm", 4) || strstr(op, "solve") || !strcmp(op, "concat") || !strcmp(op, "stack") || !strcmp(op, "submatrix")))
+    g_sliver = 2; /* operations with three dimensions (or a square operand first): tiny first, so that no huge x huge object arises */
+  genopt_t gg = *g;
+  if (g_sliver) { gg.deep = 0; g_deep = 0; gg.maxdim = 30000; }
+  int rc = gen_case_inner(r, op, &gg, o, rb, pb);
+  g_deep = 0; g_strat = -1; g_sliver = 0;
   return rc;
 }
 static int gen_case_inner(rng_t *r, const char *op, const genopt_t *g, sbuf_t *o, int rb, int pb) {
